@@ -313,6 +313,37 @@ def readSeq (s : Stream) : List Tok → Except Err (List Val × Int)
       | .error e => .error e
       | .ok (vs, fp) => .ok (if v = .none then vs else v :: vs, fp)
 
+/-- A token with a bit length of its own (integer count, `name:len`, `bool`). -/
+def Tok.isFixedLen : Tok → Bool
+  | .count _ => true
+  | .fixed _ _ => true
+  | .stretchy .bool => true
+  | _ => false
+
+/-- A self-delimiting token. -/
+def Tok.isVar : Tok → Bool
+  | .var _ => true
+  | _ => false
+
+/-- SPEC: the bits the fixed-length tokens `post` ask for in total (`bits_after_stretchy_token`). -/
+def afterBits : List Tok → Int
+  | [] => 0
+  | t :: rest => (match t.need 0 with | some n => n | none => 0) + afterBits rest
+
+/-- SPEC of `readlist` with one stretchy token `k` between `pre` (no stretchy token) and `post` (fixed-length tokens):
+    the successive single reads, where the stretchy token is read as the fixed-length token `k:items` with
+    `items * bits_per_item = max(remaining_at_that_point - afterBits post, 0)` (ValueError when that is not a whole
+    number of items). -/
+def readSeqStretchy (s : Stream) (pre : List Tok) (k : Kind) (post : List Tok) : Except Err (List Val × Int) :=
+  match readSeq s pre with
+  | .error e => .error e
+  | .ok (vs1, p1) =>
+    let avail := max (s.len - p1 - afterBits post) 0
+    if avail % k.mult ≠ 0 then .error .value else
+    match readSeq { s with pos := p1 } (.fixed k (avail / k.mult).toNat :: post) with
+    | .error e => .error e
+    | .ok (vs2, p2) => .ok (vs1 ++ vs2, p2)
+
 /-! ## non-length-changing mutators of BitArray (contents only; their pos behaviour is "nothing") -/
 
 inductive Mut where
